@@ -20,8 +20,8 @@ def _sig_persists(prop, scn, seed, plans, signature):
 
 
 def _drop_task(scn, t):
-    if scn["tasks"][t].get("xg"):
-        return None       # members of a run_experiment_group are rendered together
+    if scn["tasks"][t].get("xg") or scn["tasks"][t].get("inc"):
+        return None       # rendered together with other tasks / with the shared include
     s = copy.deepcopy(scn)
     for op in s["history"]:
         if op.get("target") == t:
@@ -112,7 +112,7 @@ def minimise(prop, doc, time_budget=60):
                     changed = True
         # 3b. drop edges
         for t in list(scn["tasks"]):
-            if scn["tasks"][t].get("xg"):
+            if scn["tasks"][t].get("xg") or scn["tasks"][t].get("inc"):
                 continue
             for d in list(scn["tasks"][t]["deps"]):
                 if not left():
@@ -130,7 +130,7 @@ def minimise(prop, doc, time_budget=60):
         for t in list(scn["tasks"]):
             d = scn["tasks"][t]
             for key in ("args", "options"):
-                if d.get(key) and left():
+                if d.get(key) and left() and not d.get("inc"):
                     c = copy.deepcopy(scn)
                     c["tasks"][t].pop(key)
                     if attempt(c, plans):
